@@ -6,8 +6,8 @@ from ..sim import Monitor
 from .common import all_demes, fb, flat, gb
 
 PROP = "C06"
-N_QUICK = 3000
-N_THOROUGH = 60000
+N_QUICK = 8000
+N_THOROUGH = 200000
 RULE = ("Plans: every LSC (metaepoch limit, fitness steadiness, all children stopped, DontStop, DontRun, user-defined "
         "evaluation-budget LSC) on every level, injected LSC verdicts at arbitrary (deme, metaepoch), external stop "
         "signals, hibernation on/off, CMA-ES with constant / plateau objectives and tiny sigma0 (self-termination), "
@@ -15,7 +15,7 @@ RULE = ("Plans: every LSC (metaepoch limit, fitness steadiness, all children sto
 NONTRIVIAL_RULE = ">= 1 step judged with >= 1 deme turning inactive and its frozen state re-checked at a later event"
 EXPECTED_PROBES = ["c06-steps-judged", "c06-stopped-by-lsc", "c06-stopped-by-gsc", "c06-stopped-by-engine",
                    "c06-stopped-by-injected-lsc", "c06-frozen-rechecked", "c06-fresh-deme-waited",
-                   "c06-hibernating-skipped", "c06-cma-self-stop", "c06-survivor-judged"]
+                   "c06-hibernating-skipped", "c06-cma-self-stop", "c06-survivor-judged", "c06-lsc-verdict-vs-definition", "c06-configs-reused"]
 ASSUMPTIONS = ["CMAEvolutionStrategy.stop() is queried by the monitor only for demes that are already inactive"]
 
 PROFILE = P.profile(p_lsc_inject=0.5, p_stop_signal=0.25, p_hibernation=0.35,
@@ -33,6 +33,8 @@ def gen(seed, tier):
     for l in pl.get("levels", []):
         if l["engine"] == "local" and seed % 3 == 0:
             l["maxiter"] = [1, 2, 3][(seed // 3) % 3]
+    if "levels" in pl and seed % 5 == 0:
+        pl["reuse_configs"] = True
     f = pl.get("faults", {})
     if "lsc_inject" in f:
         import random
@@ -90,7 +92,45 @@ class C06Monitor(Monitor):
                         "me": len(d._history)}
         self.begin = b
 
+    def _reference_lsc(self, deme):
+        """The level's shipped LSC recomputed from its definition and the deme's public state."""
+        import numpy as np
+
+        w = self.w
+        if "levels" in w.plan:
+            spec = w.plan["levels"][deme._level]["lsc"]
+        else:  # minimize(): DontStop for the root, FitnessSteadiness() for the CMA level
+            spec = {"kind": "dont_stop"} if deme._level == 0 else {"kind": "fitness_steadiness", "max_deviation": 0.001,
+                                                                    "n_metaepochs": 5}
+        k = spec["kind"]
+        me = len(deme._history) - 1
+        if k == "metaepoch_limit":
+            return me >= spec["limit"]
+        if k == "fitness_steadiness":
+            n = int(spec["n_metaepochs"])
+            if n > me:
+                return False
+            avg = [np.mean([i.fitness for g in deme._history[j] for i in g]) for j in range(-n, 0)]
+            return bool(np.mean(avg) - np.min(avg) <= spec["max_deviation"])
+        if k == "all_children_stopped":
+            return bool(deme._children) and all(not c._active for c in deme._children)
+        if k == "dont_stop":
+            return False
+        if k == "dont_run":
+            return True
+        if k == "eval_budget":
+            return deme.n_evaluations >= spec["n"]
+        return None
+
     def on_lsc(self, deme, raw, verdict):
+        ref = self._reference_lsc(deme)
+        if ref is not None:
+            self.w.probe("c06-lsc-verdict-vs-definition")
+            if bool(ref) != bool(raw):
+                kind = (self.w.plan["levels"][deme._level]["lsc"]["kind"] if "levels" in self.w.plan else "minimize")
+                self.violate("lsc-verdict-differs-from-definition/" + kind,
+                             {"deme": deme.id, "returned": bool(raw), "definition": bool(ref),
+                              "metaepochs": len(deme._history) - 1})
         if verdict:
             self.lsc_true[id(deme)] = "injected" if not raw else "lsc"
         self.lsc_consulted[id(deme)] = True
@@ -223,6 +263,47 @@ class C06Monitor(Monitor):
 
 
 MONITORS = [C06Monitor]
+
+
+def run(plan):
+    """Plans flagged ``reuse_configs`` run twice (other seeds first) with the SAME LSC and sprout-mechanism objects,
+    as a benchmark that builds its level configuration once and loops over seeds does."""
+    import copy
+    import sys
+
+    from .. import build, runner
+
+    mod = sys.modules[__name__]
+    if not plan.get("reuse_configs") or "levels" not in plan:
+        return runner.default_run(mod, plan)
+    build.SHARED_MECHANISMS.clear()
+    build.SHARED_LSCS.clear()
+    try:
+        warm = copy.deepcopy(plan)
+        warm["share_key"] = "c06"
+        warm["share_lscs"] = True
+        warm["prior_seed"] = (plan["prior_seed"] + 29) % (2 ** 31)
+        if warm["options"].get("random_seed") is not None:
+            warm["options"]["random_seed"] = warm["options"]["random_seed"] + 1
+        main = copy.deepcopy(plan)
+        main["share_key"] = "c06"
+        main["share_lscs"] = True
+        w1 = build.execute(warm, MONITORS)
+        v1 = list(w1.violations)
+        w1.dispose()
+        w = build.execute(main, MONITORS)
+        try:
+            w.probe("c06-configs-reused")
+            for v in v1:
+                v = dict(v)
+                v["detail"] = dict(v["detail"], in_warm_up_run=True)
+                w.violations.append(v)
+            return runner.summarize_world(w, mod, plan)
+        finally:
+            w.dispose()
+    finally:
+        build.SHARED_MECHANISMS.clear()
+        build.SHARED_LSCS.clear()
 
 
 def nontrivial(w):
